@@ -19,15 +19,32 @@
          fix_d9   Stream cancels, on return, a context DERIVED from the caller's; the reader selects on it
          fix_d10  Error() returns nil at once when s.errChan is nil
          d9_wrong the trap of DESIGN section 7: the derived context is ALSO stored in s.ctx, so that
-                  Error()'s filter reads it (kept only to prove that this variant breaks C06). *)
+                  Error()'s filter reads it (kept only to prove that this variant breaks C06).
+         fix_k2   the repair of K2: Stream records in s.endedUncancelled whether its context was still live
+                  when parseEvents returned; Error()'s first filter case is
+                  `s.ctx.Err() == context.Canceled && !s.endedUncancelled`.
+     * s.endedUncancelled is the state component ended_uncancelled.  Stream is called once in the model, so
+       "reset to false when Stream starts" is its value in init.  It is assigned by the step LStreamDefer
+       (PReturning -> PDeferClose): that step stands for "parseEvents has returned, the context is sampled,
+       the deferred close is entered"; a Cancel may fall between the parser's decision to return
+       (LParserSeeClosed, ...) and the sample, as in the Go code.  The paths that return before parseEvents
+       (connect failure, start failure) leave it false: they are the ones on which s.errChan was not
+       assigned (s_chan s = false; `s.errChan = conn.errChan` immediately precedes the parseEvents call).
+       The assignment is made for every cfg (the field exists in the repaired tree only; with
+       fix_k2 = false nothing reads it).
+     * ghost fields (never read by a step): canc_pre_pe = the caller cancelled before parseEvents returned
+       (before the LStreamDefer step, the point where the context is sampled); canc_pre_ret = before Stream
+       returned; canc_pre_call = before Error() was called; canc_at_err = the context as the first Error()
+       call saw it. *)
 From GB Require Import Base.Prelude.
 From GBGen Require Consts.
 Open Scope nat_scope.
 
-Record cfg := Cfg { fix_d9 : bool; fix_d10 : bool; d9_wrong : bool }.
-Definition cfg_pinned : cfg := Cfg false false false.
-Definition cfg_fixed  : cfg := Cfg true true false.
-Definition cfg_trap   : cfg := Cfg true true true.
+Record cfg := Cfg { fix_d9 : bool; fix_d10 : bool; d9_wrong : bool; fix_k2 : bool }.
+Definition cfg_pinned : cfg := Cfg false false false false.
+Definition cfg_fixed  : cfg := Cfg true true false false.     (* D9 and D10 repaired, K2 not *)
+Definition cfg_trap   : cfg := Cfg true true true false.
+Definition cfg_fixed2 : cfg := Cfg true true false true.      (* D9, D10 and K2 repaired: the current tree *)
 
 Definition event := (nat * bool)%type.            (* id, completes a transaction *)
 Definition ev_tx (e : event) : bool := snd e.
@@ -71,35 +88,39 @@ Record state := St {
   canc_pre_ret : bool;
   canc_pre_call : bool;
   canc_at_err : bool;
-  first_res : option eres }.
+  first_res : option eres;
+  ended_uncancelled : bool;
+  canc_pre_pe : bool }.
 
-Definition set_rd (v : rpc) (s : state) : state := {| rd := v; ps := ps s; cl := cl s; cancelled := cancelled s; dcancelled := dcancelled s; sock := sock s; inbox := inbox s; evclosed := evclosed s; s_chan := s_chan s; ec_buf := ec_buf s; ec_closed := ec_closed s; dc_r := dc_r s; dc_p := dc_p s; rreason := rreason s; ec_sent := ec_sent s; consumed := consumed s; hlog := hlog s; hrun := hrun s; cause := cause s; canc_pre_ret := canc_pre_ret s; canc_pre_call := canc_pre_call s; canc_at_err := canc_at_err s; first_res := first_res s |}.
-Definition set_ps (v : ppc) (s : state) : state := {| rd := rd s; ps := v; cl := cl s; cancelled := cancelled s; dcancelled := dcancelled s; sock := sock s; inbox := inbox s; evclosed := evclosed s; s_chan := s_chan s; ec_buf := ec_buf s; ec_closed := ec_closed s; dc_r := dc_r s; dc_p := dc_p s; rreason := rreason s; ec_sent := ec_sent s; consumed := consumed s; hlog := hlog s; hrun := hrun s; cause := cause s; canc_pre_ret := canc_pre_ret s; canc_pre_call := canc_pre_call s; canc_at_err := canc_at_err s; first_res := first_res s |}.
-Definition set_cl (v : cpc) (s : state) : state := {| rd := rd s; ps := ps s; cl := v; cancelled := cancelled s; dcancelled := dcancelled s; sock := sock s; inbox := inbox s; evclosed := evclosed s; s_chan := s_chan s; ec_buf := ec_buf s; ec_closed := ec_closed s; dc_r := dc_r s; dc_p := dc_p s; rreason := rreason s; ec_sent := ec_sent s; consumed := consumed s; hlog := hlog s; hrun := hrun s; cause := cause s; canc_pre_ret := canc_pre_ret s; canc_pre_call := canc_pre_call s; canc_at_err := canc_at_err s; first_res := first_res s |}.
-Definition set_cancelled (v : bool) (s : state) : state := {| rd := rd s; ps := ps s; cl := cl s; cancelled := v; dcancelled := dcancelled s; sock := sock s; inbox := inbox s; evclosed := evclosed s; s_chan := s_chan s; ec_buf := ec_buf s; ec_closed := ec_closed s; dc_r := dc_r s; dc_p := dc_p s; rreason := rreason s; ec_sent := ec_sent s; consumed := consumed s; hlog := hlog s; hrun := hrun s; cause := cause s; canc_pre_ret := canc_pre_ret s; canc_pre_call := canc_pre_call s; canc_at_err := canc_at_err s; first_res := first_res s |}.
-Definition set_dcancelled (v : bool) (s : state) : state := {| rd := rd s; ps := ps s; cl := cl s; cancelled := cancelled s; dcancelled := v; sock := sock s; inbox := inbox s; evclosed := evclosed s; s_chan := s_chan s; ec_buf := ec_buf s; ec_closed := ec_closed s; dc_r := dc_r s; dc_p := dc_p s; rreason := rreason s; ec_sent := ec_sent s; consumed := consumed s; hlog := hlog s; hrun := hrun s; cause := cause s; canc_pre_ret := canc_pre_ret s; canc_pre_call := canc_pre_call s; canc_at_err := canc_at_err s; first_res := first_res s |}.
-Definition set_sock (v : socket) (s : state) : state := {| rd := rd s; ps := ps s; cl := cl s; cancelled := cancelled s; dcancelled := dcancelled s; sock := v; inbox := inbox s; evclosed := evclosed s; s_chan := s_chan s; ec_buf := ec_buf s; ec_closed := ec_closed s; dc_r := dc_r s; dc_p := dc_p s; rreason := rreason s; ec_sent := ec_sent s; consumed := consumed s; hlog := hlog s; hrun := hrun s; cause := cause s; canc_pre_ret := canc_pre_ret s; canc_pre_call := canc_pre_call s; canc_at_err := canc_at_err s; first_res := first_res s |}.
-Definition set_inbox (v : list packet) (s : state) : state := {| rd := rd s; ps := ps s; cl := cl s; cancelled := cancelled s; dcancelled := dcancelled s; sock := sock s; inbox := v; evclosed := evclosed s; s_chan := s_chan s; ec_buf := ec_buf s; ec_closed := ec_closed s; dc_r := dc_r s; dc_p := dc_p s; rreason := rreason s; ec_sent := ec_sent s; consumed := consumed s; hlog := hlog s; hrun := hrun s; cause := cause s; canc_pre_ret := canc_pre_ret s; canc_pre_call := canc_pre_call s; canc_at_err := canc_at_err s; first_res := first_res s |}.
-Definition set_evclosed (v : bool) (s : state) : state := {| rd := rd s; ps := ps s; cl := cl s; cancelled := cancelled s; dcancelled := dcancelled s; sock := sock s; inbox := inbox s; evclosed := v; s_chan := s_chan s; ec_buf := ec_buf s; ec_closed := ec_closed s; dc_r := dc_r s; dc_p := dc_p s; rreason := rreason s; ec_sent := ec_sent s; consumed := consumed s; hlog := hlog s; hrun := hrun s; cause := cause s; canc_pre_ret := canc_pre_ret s; canc_pre_call := canc_pre_call s; canc_at_err := canc_at_err s; first_res := first_res s |}.
-Definition set_s_chan (v : bool) (s : state) : state := {| rd := rd s; ps := ps s; cl := cl s; cancelled := cancelled s; dcancelled := dcancelled s; sock := sock s; inbox := inbox s; evclosed := evclosed s; s_chan := v; ec_buf := ec_buf s; ec_closed := ec_closed s; dc_r := dc_r s; dc_p := dc_p s; rreason := rreason s; ec_sent := ec_sent s; consumed := consumed s; hlog := hlog s; hrun := hrun s; cause := cause s; canc_pre_ret := canc_pre_ret s; canc_pre_call := canc_pre_call s; canc_at_err := canc_at_err s; first_res := first_res s |}.
-Definition set_ec_buf (v : list reason) (s : state) : state := {| rd := rd s; ps := ps s; cl := cl s; cancelled := cancelled s; dcancelled := dcancelled s; sock := sock s; inbox := inbox s; evclosed := evclosed s; s_chan := s_chan s; ec_buf := v; ec_closed := ec_closed s; dc_r := dc_r s; dc_p := dc_p s; rreason := rreason s; ec_sent := ec_sent s; consumed := consumed s; hlog := hlog s; hrun := hrun s; cause := cause s; canc_pre_ret := canc_pre_ret s; canc_pre_call := canc_pre_call s; canc_at_err := canc_at_err s; first_res := first_res s |}.
-Definition set_ec_closed (v : bool) (s : state) : state := {| rd := rd s; ps := ps s; cl := cl s; cancelled := cancelled s; dcancelled := dcancelled s; sock := sock s; inbox := inbox s; evclosed := evclosed s; s_chan := s_chan s; ec_buf := ec_buf s; ec_closed := v; dc_r := dc_r s; dc_p := dc_p s; rreason := rreason s; ec_sent := ec_sent s; consumed := consumed s; hlog := hlog s; hrun := hrun s; cause := cause s; canc_pre_ret := canc_pre_ret s; canc_pre_call := canc_pre_call s; canc_at_err := canc_at_err s; first_res := first_res s |}.
-Definition set_dc_r (v : option dcall) (s : state) : state := {| rd := rd s; ps := ps s; cl := cl s; cancelled := cancelled s; dcancelled := dcancelled s; sock := sock s; inbox := inbox s; evclosed := evclosed s; s_chan := s_chan s; ec_buf := ec_buf s; ec_closed := ec_closed s; dc_r := v; dc_p := dc_p s; rreason := rreason s; ec_sent := ec_sent s; consumed := consumed s; hlog := hlog s; hrun := hrun s; cause := cause s; canc_pre_ret := canc_pre_ret s; canc_pre_call := canc_pre_call s; canc_at_err := canc_at_err s; first_res := first_res s |}.
-Definition set_dc_p (v : option dcall) (s : state) : state := {| rd := rd s; ps := ps s; cl := cl s; cancelled := cancelled s; dcancelled := dcancelled s; sock := sock s; inbox := inbox s; evclosed := evclosed s; s_chan := s_chan s; ec_buf := ec_buf s; ec_closed := ec_closed s; dc_r := dc_r s; dc_p := v; rreason := rreason s; ec_sent := ec_sent s; consumed := consumed s; hlog := hlog s; hrun := hrun s; cause := cause s; canc_pre_ret := canc_pre_ret s; canc_pre_call := canc_pre_call s; canc_at_err := canc_at_err s; first_res := first_res s |}.
-Definition set_rreason (v : option reason) (s : state) : state := {| rd := rd s; ps := ps s; cl := cl s; cancelled := cancelled s; dcancelled := dcancelled s; sock := sock s; inbox := inbox s; evclosed := evclosed s; s_chan := s_chan s; ec_buf := ec_buf s; ec_closed := ec_closed s; dc_r := dc_r s; dc_p := dc_p s; rreason := v; ec_sent := ec_sent s; consumed := consumed s; hlog := hlog s; hrun := hrun s; cause := cause s; canc_pre_ret := canc_pre_ret s; canc_pre_call := canc_pre_call s; canc_at_err := canc_at_err s; first_res := first_res s |}.
-Definition set_ec_sent (v : list reason) (s : state) : state := {| rd := rd s; ps := ps s; cl := cl s; cancelled := cancelled s; dcancelled := dcancelled s; sock := sock s; inbox := inbox s; evclosed := evclosed s; s_chan := s_chan s; ec_buf := ec_buf s; ec_closed := ec_closed s; dc_r := dc_r s; dc_p := dc_p s; rreason := rreason s; ec_sent := v; consumed := consumed s; hlog := hlog s; hrun := hrun s; cause := cause s; canc_pre_ret := canc_pre_ret s; canc_pre_call := canc_pre_call s; canc_at_err := canc_at_err s; first_res := first_res s |}.
-Definition set_consumed (v : list event) (s : state) : state := {| rd := rd s; ps := ps s; cl := cl s; cancelled := cancelled s; dcancelled := dcancelled s; sock := sock s; inbox := inbox s; evclosed := evclosed s; s_chan := s_chan s; ec_buf := ec_buf s; ec_closed := ec_closed s; dc_r := dc_r s; dc_p := dc_p s; rreason := rreason s; ec_sent := ec_sent s; consumed := v; hlog := hlog s; hrun := hrun s; cause := cause s; canc_pre_ret := canc_pre_ret s; canc_pre_call := canc_pre_call s; canc_at_err := canc_at_err s; first_res := first_res s |}.
-Definition set_hlog (v : list (event * bool)) (s : state) : state := {| rd := rd s; ps := ps s; cl := cl s; cancelled := cancelled s; dcancelled := dcancelled s; sock := sock s; inbox := inbox s; evclosed := evclosed s; s_chan := s_chan s; ec_buf := ec_buf s; ec_closed := ec_closed s; dc_r := dc_r s; dc_p := dc_p s; rreason := rreason s; ec_sent := ec_sent s; consumed := consumed s; hlog := v; hrun := hrun s; cause := cause s; canc_pre_ret := canc_pre_ret s; canc_pre_call := canc_pre_call s; canc_at_err := canc_at_err s; first_res := first_res s |}.
-Definition set_hrun (v : nat) (s : state) : state := {| rd := rd s; ps := ps s; cl := cl s; cancelled := cancelled s; dcancelled := dcancelled s; sock := sock s; inbox := inbox s; evclosed := evclosed s; s_chan := s_chan s; ec_buf := ec_buf s; ec_closed := ec_closed s; dc_r := dc_r s; dc_p := dc_p s; rreason := rreason s; ec_sent := ec_sent s; consumed := consumed s; hlog := hlog s; hrun := v; cause := cause s; canc_pre_ret := canc_pre_ret s; canc_pre_call := canc_pre_call s; canc_at_err := canc_at_err s; first_res := first_res s |}.
-Definition set_cause (v : option stopcause) (s : state) : state := {| rd := rd s; ps := ps s; cl := cl s; cancelled := cancelled s; dcancelled := dcancelled s; sock := sock s; inbox := inbox s; evclosed := evclosed s; s_chan := s_chan s; ec_buf := ec_buf s; ec_closed := ec_closed s; dc_r := dc_r s; dc_p := dc_p s; rreason := rreason s; ec_sent := ec_sent s; consumed := consumed s; hlog := hlog s; hrun := hrun s; cause := v; canc_pre_ret := canc_pre_ret s; canc_pre_call := canc_pre_call s; canc_at_err := canc_at_err s; first_res := first_res s |}.
-Definition set_canc_pre_ret (v : bool) (s : state) : state := {| rd := rd s; ps := ps s; cl := cl s; cancelled := cancelled s; dcancelled := dcancelled s; sock := sock s; inbox := inbox s; evclosed := evclosed s; s_chan := s_chan s; ec_buf := ec_buf s; ec_closed := ec_closed s; dc_r := dc_r s; dc_p := dc_p s; rreason := rreason s; ec_sent := ec_sent s; consumed := consumed s; hlog := hlog s; hrun := hrun s; cause := cause s; canc_pre_ret := v; canc_pre_call := canc_pre_call s; canc_at_err := canc_at_err s; first_res := first_res s |}.
-Definition set_canc_pre_call (v : bool) (s : state) : state := {| rd := rd s; ps := ps s; cl := cl s; cancelled := cancelled s; dcancelled := dcancelled s; sock := sock s; inbox := inbox s; evclosed := evclosed s; s_chan := s_chan s; ec_buf := ec_buf s; ec_closed := ec_closed s; dc_r := dc_r s; dc_p := dc_p s; rreason := rreason s; ec_sent := ec_sent s; consumed := consumed s; hlog := hlog s; hrun := hrun s; cause := cause s; canc_pre_ret := canc_pre_ret s; canc_pre_call := v; canc_at_err := canc_at_err s; first_res := first_res s |}.
-Definition set_canc_at_err (v : bool) (s : state) : state := {| rd := rd s; ps := ps s; cl := cl s; cancelled := cancelled s; dcancelled := dcancelled s; sock := sock s; inbox := inbox s; evclosed := evclosed s; s_chan := s_chan s; ec_buf := ec_buf s; ec_closed := ec_closed s; dc_r := dc_r s; dc_p := dc_p s; rreason := rreason s; ec_sent := ec_sent s; consumed := consumed s; hlog := hlog s; hrun := hrun s; cause := cause s; canc_pre_ret := canc_pre_ret s; canc_pre_call := canc_pre_call s; canc_at_err := v; first_res := first_res s |}.
-Definition set_first_res (v : option eres) (s : state) : state := {| rd := rd s; ps := ps s; cl := cl s; cancelled := cancelled s; dcancelled := dcancelled s; sock := sock s; inbox := inbox s; evclosed := evclosed s; s_chan := s_chan s; ec_buf := ec_buf s; ec_closed := ec_closed s; dc_r := dc_r s; dc_p := dc_p s; rreason := rreason s; ec_sent := ec_sent s; consumed := consumed s; hlog := hlog s; hrun := hrun s; cause := cause s; canc_pre_ret := canc_pre_ret s; canc_pre_call := canc_pre_call s; canc_at_err := canc_at_err s; first_res := v |}.
+Definition set_rd (v : rpc) (s : state) : state := {| rd := v; ps := ps s; cl := cl s; cancelled := cancelled s; dcancelled := dcancelled s; sock := sock s; inbox := inbox s; evclosed := evclosed s; s_chan := s_chan s; ec_buf := ec_buf s; ec_closed := ec_closed s; dc_r := dc_r s; dc_p := dc_p s; rreason := rreason s; ec_sent := ec_sent s; consumed := consumed s; hlog := hlog s; hrun := hrun s; cause := cause s; canc_pre_ret := canc_pre_ret s; canc_pre_call := canc_pre_call s; canc_at_err := canc_at_err s; first_res := first_res s; ended_uncancelled := ended_uncancelled s; canc_pre_pe := canc_pre_pe s |}.
+Definition set_ps (v : ppc) (s : state) : state := {| rd := rd s; ps := v; cl := cl s; cancelled := cancelled s; dcancelled := dcancelled s; sock := sock s; inbox := inbox s; evclosed := evclosed s; s_chan := s_chan s; ec_buf := ec_buf s; ec_closed := ec_closed s; dc_r := dc_r s; dc_p := dc_p s; rreason := rreason s; ec_sent := ec_sent s; consumed := consumed s; hlog := hlog s; hrun := hrun s; cause := cause s; canc_pre_ret := canc_pre_ret s; canc_pre_call := canc_pre_call s; canc_at_err := canc_at_err s; first_res := first_res s; ended_uncancelled := ended_uncancelled s; canc_pre_pe := canc_pre_pe s |}.
+Definition set_cl (v : cpc) (s : state) : state := {| rd := rd s; ps := ps s; cl := v; cancelled := cancelled s; dcancelled := dcancelled s; sock := sock s; inbox := inbox s; evclosed := evclosed s; s_chan := s_chan s; ec_buf := ec_buf s; ec_closed := ec_closed s; dc_r := dc_r s; dc_p := dc_p s; rreason := rreason s; ec_sent := ec_sent s; consumed := consumed s; hlog := hlog s; hrun := hrun s; cause := cause s; canc_pre_ret := canc_pre_ret s; canc_pre_call := canc_pre_call s; canc_at_err := canc_at_err s; first_res := first_res s; ended_uncancelled := ended_uncancelled s; canc_pre_pe := canc_pre_pe s |}.
+Definition set_cancelled (v : bool) (s : state) : state := {| rd := rd s; ps := ps s; cl := cl s; cancelled := v; dcancelled := dcancelled s; sock := sock s; inbox := inbox s; evclosed := evclosed s; s_chan := s_chan s; ec_buf := ec_buf s; ec_closed := ec_closed s; dc_r := dc_r s; dc_p := dc_p s; rreason := rreason s; ec_sent := ec_sent s; consumed := consumed s; hlog := hlog s; hrun := hrun s; cause := cause s; canc_pre_ret := canc_pre_ret s; canc_pre_call := canc_pre_call s; canc_at_err := canc_at_err s; first_res := first_res s; ended_uncancelled := ended_uncancelled s; canc_pre_pe := canc_pre_pe s |}.
+Definition set_dcancelled (v : bool) (s : state) : state := {| rd := rd s; ps := ps s; cl := cl s; cancelled := cancelled s; dcancelled := v; sock := sock s; inbox := inbox s; evclosed := evclosed s; s_chan := s_chan s; ec_buf := ec_buf s; ec_closed := ec_closed s; dc_r := dc_r s; dc_p := dc_p s; rreason := rreason s; ec_sent := ec_sent s; consumed := consumed s; hlog := hlog s; hrun := hrun s; cause := cause s; canc_pre_ret := canc_pre_ret s; canc_pre_call := canc_pre_call s; canc_at_err := canc_at_err s; first_res := first_res s; ended_uncancelled := ended_uncancelled s; canc_pre_pe := canc_pre_pe s |}.
+Definition set_sock (v : socket) (s : state) : state := {| rd := rd s; ps := ps s; cl := cl s; cancelled := cancelled s; dcancelled := dcancelled s; sock := v; inbox := inbox s; evclosed := evclosed s; s_chan := s_chan s; ec_buf := ec_buf s; ec_closed := ec_closed s; dc_r := dc_r s; dc_p := dc_p s; rreason := rreason s; ec_sent := ec_sent s; consumed := consumed s; hlog := hlog s; hrun := hrun s; cause := cause s; canc_pre_ret := canc_pre_ret s; canc_pre_call := canc_pre_call s; canc_at_err := canc_at_err s; first_res := first_res s; ended_uncancelled := ended_uncancelled s; canc_pre_pe := canc_pre_pe s |}.
+Definition set_inbox (v : list packet) (s : state) : state := {| rd := rd s; ps := ps s; cl := cl s; cancelled := cancelled s; dcancelled := dcancelled s; sock := sock s; inbox := v; evclosed := evclosed s; s_chan := s_chan s; ec_buf := ec_buf s; ec_closed := ec_closed s; dc_r := dc_r s; dc_p := dc_p s; rreason := rreason s; ec_sent := ec_sent s; consumed := consumed s; hlog := hlog s; hrun := hrun s; cause := cause s; canc_pre_ret := canc_pre_ret s; canc_pre_call := canc_pre_call s; canc_at_err := canc_at_err s; first_res := first_res s; ended_uncancelled := ended_uncancelled s; canc_pre_pe := canc_pre_pe s |}.
+Definition set_evclosed (v : bool) (s : state) : state := {| rd := rd s; ps := ps s; cl := cl s; cancelled := cancelled s; dcancelled := dcancelled s; sock := sock s; inbox := inbox s; evclosed := v; s_chan := s_chan s; ec_buf := ec_buf s; ec_closed := ec_closed s; dc_r := dc_r s; dc_p := dc_p s; rreason := rreason s; ec_sent := ec_sent s; consumed := consumed s; hlog := hlog s; hrun := hrun s; cause := cause s; canc_pre_ret := canc_pre_ret s; canc_pre_call := canc_pre_call s; canc_at_err := canc_at_err s; first_res := first_res s; ended_uncancelled := ended_uncancelled s; canc_pre_pe := canc_pre_pe s |}.
+Definition set_s_chan (v : bool) (s : state) : state := {| rd := rd s; ps := ps s; cl := cl s; cancelled := cancelled s; dcancelled := dcancelled s; sock := sock s; inbox := inbox s; evclosed := evclosed s; s_chan := v; ec_buf := ec_buf s; ec_closed := ec_closed s; dc_r := dc_r s; dc_p := dc_p s; rreason := rreason s; ec_sent := ec_sent s; consumed := consumed s; hlog := hlog s; hrun := hrun s; cause := cause s; canc_pre_ret := canc_pre_ret s; canc_pre_call := canc_pre_call s; canc_at_err := canc_at_err s; first_res := first_res s; ended_uncancelled := ended_uncancelled s; canc_pre_pe := canc_pre_pe s |}.
+Definition set_ec_buf (v : list reason) (s : state) : state := {| rd := rd s; ps := ps s; cl := cl s; cancelled := cancelled s; dcancelled := dcancelled s; sock := sock s; inbox := inbox s; evclosed := evclosed s; s_chan := s_chan s; ec_buf := v; ec_closed := ec_closed s; dc_r := dc_r s; dc_p := dc_p s; rreason := rreason s; ec_sent := ec_sent s; consumed := consumed s; hlog := hlog s; hrun := hrun s; cause := cause s; canc_pre_ret := canc_pre_ret s; canc_pre_call := canc_pre_call s; canc_at_err := canc_at_err s; first_res := first_res s; ended_uncancelled := ended_uncancelled s; canc_pre_pe := canc_pre_pe s |}.
+Definition set_ec_closed (v : bool) (s : state) : state := {| rd := rd s; ps := ps s; cl := cl s; cancelled := cancelled s; dcancelled := dcancelled s; sock := sock s; inbox := inbox s; evclosed := evclosed s; s_chan := s_chan s; ec_buf := ec_buf s; ec_closed := v; dc_r := dc_r s; dc_p := dc_p s; rreason := rreason s; ec_sent := ec_sent s; consumed := consumed s; hlog := hlog s; hrun := hrun s; cause := cause s; canc_pre_ret := canc_pre_ret s; canc_pre_call := canc_pre_call s; canc_at_err := canc_at_err s; first_res := first_res s; ended_uncancelled := ended_uncancelled s; canc_pre_pe := canc_pre_pe s |}.
+Definition set_dc_r (v : option dcall) (s : state) : state := {| rd := rd s; ps := ps s; cl := cl s; cancelled := cancelled s; dcancelled := dcancelled s; sock := sock s; inbox := inbox s; evclosed := evclosed s; s_chan := s_chan s; ec_buf := ec_buf s; ec_closed := ec_closed s; dc_r := v; dc_p := dc_p s; rreason := rreason s; ec_sent := ec_sent s; consumed := consumed s; hlog := hlog s; hrun := hrun s; cause := cause s; canc_pre_ret := canc_pre_ret s; canc_pre_call := canc_pre_call s; canc_at_err := canc_at_err s; first_res := first_res s; ended_uncancelled := ended_uncancelled s; canc_pre_pe := canc_pre_pe s |}.
+Definition set_dc_p (v : option dcall) (s : state) : state := {| rd := rd s; ps := ps s; cl := cl s; cancelled := cancelled s; dcancelled := dcancelled s; sock := sock s; inbox := inbox s; evclosed := evclosed s; s_chan := s_chan s; ec_buf := ec_buf s; ec_closed := ec_closed s; dc_r := dc_r s; dc_p := v; rreason := rreason s; ec_sent := ec_sent s; consumed := consumed s; hlog := hlog s; hrun := hrun s; cause := cause s; canc_pre_ret := canc_pre_ret s; canc_pre_call := canc_pre_call s; canc_at_err := canc_at_err s; first_res := first_res s; ended_uncancelled := ended_uncancelled s; canc_pre_pe := canc_pre_pe s |}.
+Definition set_rreason (v : option reason) (s : state) : state := {| rd := rd s; ps := ps s; cl := cl s; cancelled := cancelled s; dcancelled := dcancelled s; sock := sock s; inbox := inbox s; evclosed := evclosed s; s_chan := s_chan s; ec_buf := ec_buf s; ec_closed := ec_closed s; dc_r := dc_r s; dc_p := dc_p s; rreason := v; ec_sent := ec_sent s; consumed := consumed s; hlog := hlog s; hrun := hrun s; cause := cause s; canc_pre_ret := canc_pre_ret s; canc_pre_call := canc_pre_call s; canc_at_err := canc_at_err s; first_res := first_res s; ended_uncancelled := ended_uncancelled s; canc_pre_pe := canc_pre_pe s |}.
+Definition set_ec_sent (v : list reason) (s : state) : state := {| rd := rd s; ps := ps s; cl := cl s; cancelled := cancelled s; dcancelled := dcancelled s; sock := sock s; inbox := inbox s; evclosed := evclosed s; s_chan := s_chan s; ec_buf := ec_buf s; ec_closed := ec_closed s; dc_r := dc_r s; dc_p := dc_p s; rreason := rreason s; ec_sent := v; consumed := consumed s; hlog := hlog s; hrun := hrun s; cause := cause s; canc_pre_ret := canc_pre_ret s; canc_pre_call := canc_pre_call s; canc_at_err := canc_at_err s; first_res := first_res s; ended_uncancelled := ended_uncancelled s; canc_pre_pe := canc_pre_pe s |}.
+Definition set_consumed (v : list event) (s : state) : state := {| rd := rd s; ps := ps s; cl := cl s; cancelled := cancelled s; dcancelled := dcancelled s; sock := sock s; inbox := inbox s; evclosed := evclosed s; s_chan := s_chan s; ec_buf := ec_buf s; ec_closed := ec_closed s; dc_r := dc_r s; dc_p := dc_p s; rreason := rreason s; ec_sent := ec_sent s; consumed := v; hlog := hlog s; hrun := hrun s; cause := cause s; canc_pre_ret := canc_pre_ret s; canc_pre_call := canc_pre_call s; canc_at_err := canc_at_err s; first_res := first_res s; ended_uncancelled := ended_uncancelled s; canc_pre_pe := canc_pre_pe s |}.
+Definition set_hlog (v : list (event * bool)) (s : state) : state := {| rd := rd s; ps := ps s; cl := cl s; cancelled := cancelled s; dcancelled := dcancelled s; sock := sock s; inbox := inbox s; evclosed := evclosed s; s_chan := s_chan s; ec_buf := ec_buf s; ec_closed := ec_closed s; dc_r := dc_r s; dc_p := dc_p s; rreason := rreason s; ec_sent := ec_sent s; consumed := consumed s; hlog := v; hrun := hrun s; cause := cause s; canc_pre_ret := canc_pre_ret s; canc_pre_call := canc_pre_call s; canc_at_err := canc_at_err s; first_res := first_res s; ended_uncancelled := ended_uncancelled s; canc_pre_pe := canc_pre_pe s |}.
+Definition set_hrun (v : nat) (s : state) : state := {| rd := rd s; ps := ps s; cl := cl s; cancelled := cancelled s; dcancelled := dcancelled s; sock := sock s; inbox := inbox s; evclosed := evclosed s; s_chan := s_chan s; ec_buf := ec_buf s; ec_closed := ec_closed s; dc_r := dc_r s; dc_p := dc_p s; rreason := rreason s; ec_sent := ec_sent s; consumed := consumed s; hlog := hlog s; hrun := v; cause := cause s; canc_pre_ret := canc_pre_ret s; canc_pre_call := canc_pre_call s; canc_at_err := canc_at_err s; first_res := first_res s; ended_uncancelled := ended_uncancelled s; canc_pre_pe := canc_pre_pe s |}.
+Definition set_cause (v : option stopcause) (s : state) : state := {| rd := rd s; ps := ps s; cl := cl s; cancelled := cancelled s; dcancelled := dcancelled s; sock := sock s; inbox := inbox s; evclosed := evclosed s; s_chan := s_chan s; ec_buf := ec_buf s; ec_closed := ec_closed s; dc_r := dc_r s; dc_p := dc_p s; rreason := rreason s; ec_sent := ec_sent s; consumed := consumed s; hlog := hlog s; hrun := hrun s; cause := v; canc_pre_ret := canc_pre_ret s; canc_pre_call := canc_pre_call s; canc_at_err := canc_at_err s; first_res := first_res s; ended_uncancelled := ended_uncancelled s; canc_pre_pe := canc_pre_pe s |}.
+Definition set_canc_pre_ret (v : bool) (s : state) : state := {| rd := rd s; ps := ps s; cl := cl s; cancelled := cancelled s; dcancelled := dcancelled s; sock := sock s; inbox := inbox s; evclosed := evclosed s; s_chan := s_chan s; ec_buf := ec_buf s; ec_closed := ec_closed s; dc_r := dc_r s; dc_p := dc_p s; rreason := rreason s; ec_sent := ec_sent s; consumed := consumed s; hlog := hlog s; hrun := hrun s; cause := cause s; canc_pre_ret := v; canc_pre_call := canc_pre_call s; canc_at_err := canc_at_err s; first_res := first_res s; ended_uncancelled := ended_uncancelled s; canc_pre_pe := canc_pre_pe s |}.
+Definition set_canc_pre_call (v : bool) (s : state) : state := {| rd := rd s; ps := ps s; cl := cl s; cancelled := cancelled s; dcancelled := dcancelled s; sock := sock s; inbox := inbox s; evclosed := evclosed s; s_chan := s_chan s; ec_buf := ec_buf s; ec_closed := ec_closed s; dc_r := dc_r s; dc_p := dc_p s; rreason := rreason s; ec_sent := ec_sent s; consumed := consumed s; hlog := hlog s; hrun := hrun s; cause := cause s; canc_pre_ret := canc_pre_ret s; canc_pre_call := v; canc_at_err := canc_at_err s; first_res := first_res s; ended_uncancelled := ended_uncancelled s; canc_pre_pe := canc_pre_pe s |}.
+Definition set_canc_at_err (v : bool) (s : state) : state := {| rd := rd s; ps := ps s; cl := cl s; cancelled := cancelled s; dcancelled := dcancelled s; sock := sock s; inbox := inbox s; evclosed := evclosed s; s_chan := s_chan s; ec_buf := ec_buf s; ec_closed := ec_closed s; dc_r := dc_r s; dc_p := dc_p s; rreason := rreason s; ec_sent := ec_sent s; consumed := consumed s; hlog := hlog s; hrun := hrun s; cause := cause s; canc_pre_ret := canc_pre_ret s; canc_pre_call := canc_pre_call s; canc_at_err := v; first_res := first_res s; ended_uncancelled := ended_uncancelled s; canc_pre_pe := canc_pre_pe s |}.
+Definition set_first_res (v : option eres) (s : state) : state := {| rd := rd s; ps := ps s; cl := cl s; cancelled := cancelled s; dcancelled := dcancelled s; sock := sock s; inbox := inbox s; evclosed := evclosed s; s_chan := s_chan s; ec_buf := ec_buf s; ec_closed := ec_closed s; dc_r := dc_r s; dc_p := dc_p s; rreason := rreason s; ec_sent := ec_sent s; consumed := consumed s; hlog := hlog s; hrun := hrun s; cause := cause s; canc_pre_ret := canc_pre_ret s; canc_pre_call := canc_pre_call s; canc_at_err := canc_at_err s; first_res := v; ended_uncancelled := ended_uncancelled s; canc_pre_pe := canc_pre_pe s |}.
+Definition set_ended_uncancelled (v : bool) (s : state) : state := {| rd := rd s; ps := ps s; cl := cl s; cancelled := cancelled s; dcancelled := dcancelled s; sock := sock s; inbox := inbox s; evclosed := evclosed s; s_chan := s_chan s; ec_buf := ec_buf s; ec_closed := ec_closed s; dc_r := dc_r s; dc_p := dc_p s; rreason := rreason s; ec_sent := ec_sent s; consumed := consumed s; hlog := hlog s; hrun := hrun s; cause := cause s; canc_pre_ret := canc_pre_ret s; canc_pre_call := canc_pre_call s; canc_at_err := canc_at_err s; first_res := first_res s; ended_uncancelled := v; canc_pre_pe := canc_pre_pe s |}.
+Definition set_canc_pre_pe (v : bool) (s : state) : state := {| rd := rd s; ps := ps s; cl := cl s; cancelled := cancelled s; dcancelled := dcancelled s; sock := sock s; inbox := inbox s; evclosed := evclosed s; s_chan := s_chan s; ec_buf := ec_buf s; ec_closed := ec_closed s; dc_r := dc_r s; dc_p := dc_p s; rreason := rreason s; ec_sent := ec_sent s; consumed := consumed s; hlog := hlog s; hrun := hrun s; cause := cause s; canc_pre_ret := canc_pre_ret s; canc_pre_call := canc_pre_call s; canc_at_err := canc_at_err s; first_res := first_res s; ended_uncancelled := ended_uncancelled s; canc_pre_pe := v |}.
 
 Definition init : state :=
   St RNotStarted PConnect CIdle false false SNone [] false false [] false None None None [] [] [] 0 None
-     false false false None.
+     false false false None false false.
 
 Inductive label :=
 (* parser (library) *)
@@ -132,6 +153,10 @@ Arguments ecap : simpl never.
 (* ctx.Done() as the reader sees it / ctx.Err()==Canceled as Error() sees it *)
 Definition rctx_done (s : state) : bool := cancelled s || dcancelled s.
 Definition ectx_err (c : cfg) (s : state) : bool := cancelled s || (d9_wrong c && dcancelled s).
+(* the first case of Error()'s filter: `s.ctx.Err() == context.Canceled` on the pinned tree,
+   `s.ctx.Err() == context.Canceled && !s.endedUncancelled` after the K2 repair *)
+Definition efirst_case (c : cfg) (s : state) : bool := ectx_err c s && negb (fix_k2 c && ended_uncancelled s).
+Definition past_sample (p : ppc) : bool := match p with PDeferClose _ | PReturned _ => true | _ => false end.
 
 (* Error()'s filter, literally: first s.ctx.Err(), then the two sentinel originals *)
 Definition efilter (ctxerr : bool) (r : reason) : eres :=
@@ -209,7 +234,9 @@ Definition step (c : cfg) (s : state) (l : label) : option state :=
     | PReturning r =>
       match sock s with
       | SNone => Some (set_dcancelled (fix_d9 c) (set_ps (PReturned r) s))     (* no connection: nothing deferred *)
-      | _ => Some (set_dc_p (Some DClose) (set_ps (PDeferClose r) s))          (* inside conn.close() -> dc.Close() *)
+      | _ =>                                (* parseEvents (if it ran) has returned: sample the context, then *)
+        Some (set_ended_uncancelled (s_chan s && negb (cancelled s))
+               (set_dc_p (Some DClose) (set_ps (PDeferClose r) s)))            (* inside conn.close() -> dc.Close() *)
       end
     | _ => None
     end
@@ -284,7 +311,7 @@ Definition step (c : cfg) (s : state) (l : label) : option state :=
              end) in
       if s_chan s then
         match ec_buf s with
-        | r :: t => Some (set_ec_buf t (fin (efilter (ectx_err c s) r) s))
+        | r :: t => Some (set_ec_buf t (fin (efilter (efirst_case c s) r) s))
         | [] => if ec_closed s then Some (fin ENil s) else None        (* blocked until the reader publishes *)
         end
       else if fix_d10 c then Some (fin ENil s) else None               (* nil channel: blocks for ever *)
@@ -298,8 +325,9 @@ Definition step (c : cfg) (s : state) (l : label) : option state :=
     match sock s with SOpen => Some (set_sock SReset s) | _ => None end
   | LCancel =>
     if cancelled s then None
-    else Some (set_canc_pre_call (match cl s with CIdle => true | _ => false end)
-                (set_canc_pre_ret (negb (is_returned (ps s))) (set_cancelled true s)))
+    else Some (set_canc_pre_pe (negb (past_sample (ps s)))
+                (set_canc_pre_call (match cl s with CIdle => true | _ => false end)
+                  (set_canc_pre_ret (negb (is_returned (ps s))) (set_cancelled true s))))
   end.
 
 (* executable runs, for witnesses *)
@@ -365,5 +393,21 @@ Definition enabled (c : cfg) (s : state) (l : label) : Prop := exists s', step c
 (* trace observations (independent of the ghost fields of the state) *)
 Definition sent_events (tr : list label) : list event :=
   flat_map (fun l => match l with LArrive (PkEvent e) => [e] | _ => [] end) tr.
+(* a Cancel label occurs, and no StreamDefer label (parseEvents returned, context sampled) before it *)
+Fixpoint cancel_before_sample (tr : list label) : bool :=
+  match tr with
+  | [] => false
+  | LCancel :: _ => true
+  | LStreamDefer :: _ => false
+  | _ :: r => cancel_before_sample r
+  end.
+(* a Cancel label occurs, and no StreamReturn label before it *)
+Fixpoint cancel_before_return (tr : list label) : bool :=
+  match tr with
+  | [] => false
+  | LCancel :: _ => true
+  | LStreamReturn :: _ => false
+  | _ :: r => cancel_before_return r
+  end.
 Definition trace_has_failure (tr : list label) : bool :=
   existsb (fun l => match l with LHandlerErr | LProcBad | LConnectFail | LStartFail => true | _ => false end) tr.
